@@ -36,9 +36,9 @@ Theorem f32_double_rounding_refuted :
   std_unmarshal opts_std TF32 (b "340282356779733661637539395458142568447") (VFlt 0) = Ok (VFlt 2139095039).
 Proof. repeat split; vm_compute; reflexivity. Qed.
 
-(* null into **T with ( *T ) an unmarshaler: the unpinned branch *)
-Theorem ptrptr_null_refuted :
-  sonic_unmarshal h1 Jit opts_std (TPtr (TPtr TUnm)) (b "null") VNil = Err /\
+(* repaired (fac5479): null into a pointer to pointer to an unmarshaler stores nil, like encoding/json *)
+Theorem ptrptr_null_agree :
+  sonic_unmarshal h1 Jit opts_std (TPtr (TPtr TUnm)) (b "null") VNil = Ok VNil /\
   std_unmarshal opts_std (TPtr (TPtr TUnm)) (b "null") VNil = Ok VNil.
 Proof. split; vm_compute; reflexivity. Qed.
 
